@@ -115,6 +115,67 @@ static void inplace_tail_case(uint64_t N, MODULE_TYPE mt, int native, int which,
   case_end(1);
 }
 
+// read-only operands whose CONTENT is arbitrary (any finite doubles, signed zeros, NaN-free): a function has no business
+// writing a const operand whatever it contains, so only "unchanged afterwards" is checked here, never a numeric result
+static void raw_sources_case(uint64_t N, int native, unsigned rep) {
+  char key[96];
+  snprintf(key, sizeof key, "prepared / DFT sources with arbitrary content%s", native ? "" : ",generic");
+  if (!case_begin(key, "N=%" PRIu64 " rep=%u", N, rep)) return;
+  rng_t* r = crng();
+  const MODULE* mod = get_module(N, FFT64, native);
+  const uint64_t rows = 1 + rng_u64(r) % 3, cols = 1 + rng_u64(r) % 3;
+  gbuf_t gp, gm, gd, ga, go, gt;
+  double* pp = gb_alloc(&gp, bytes_of_svp_ppol(mod), 8, 8 * (rep % 8), 4096);
+  double* pm = gb_alloc(&gm, bytes_of_vmp_pmat(mod, rows, cols), 8, 8, 4096);
+  double* ad = gb_alloc(&gd, bytes_of_vec_znx_dft(mod, rows), 8, 16, 4096);
+  int64_t* a = gb_alloc(&ga, rows * N * 8, 8, 24, 4096);
+  double* out = gb_alloc(&go, bytes_of_vec_znx_dft(mod, cols > rows ? cols : rows), 8, 0, 4096);
+  size_t tb = vmp_apply_dft_to_dft_tmp_bytes(mod, cols, rows, rows, cols);
+  if (vmp_apply_dft_tmp_bytes(mod, cols, rows, rows, cols) > tb) tb = vmp_apply_dft_tmp_bytes(mod, cols, rows, rows, cols);
+  if (vec_znx_idft_tmp_bytes(mod) > tb) tb = vec_znx_idft_tmp_bytes(mod);
+  uint8_t* tmp = gb_alloc(&gt, tb, 8, 8, 4096);
+  double* bufs[3] = {pp, pm, ad};
+  const size_t lens[3] = {bytes_of_svp_ppol(mod) / 8, bytes_of_vmp_pmat(mod, rows, cols) / 8, bytes_of_vec_znx_dft(mod, rows) / 8};
+  for (int b = 0; b < 3; b++)
+    for (size_t i = 0; i < lens[b]; i++) {
+      const uint64_t t = rng_u64(r);
+      double v;
+      switch (t % 8) {
+        case 0: v = 0.0; break;
+        case 1: v = -0.0; break;
+        case 2: v = ldexp(rng_unit(r) - 0.5, -1060); break;  // subnormal
+        case 3: v = (double)rng_sbits(r, 40); break;
+        default: v = ldexp(rng_unit(r) * 2 - 1, (int)(t >> 8) % 60 - 20);
+      }
+      bufs[b][i] = v;
+    }
+  for (uint64_t i = 0; i < rows * N; i++) a[i] = rng_sbits(r, 30);
+  snap_t sp, sm, sd, sa;
+  snap_take(&sp, pp, lens[0] * 8);
+  snap_take(&sm, pm, lens[1] * 8);
+  snap_take(&sd, ad, lens[2] * 8);
+  snap_take(&sa, a, rows * N * 8);
+  svp_apply_dft(mod, (VEC_ZNX_DFT*)out, rows, (SVP_PPOL*)pp, a, rows, N);
+  vmp_apply_dft_to_dft(mod, (VEC_ZNX_DFT*)out, cols, (VEC_ZNX_DFT*)ad, rows, (VMP_PMAT*)pm, rows, cols, tmp);
+  vmp_apply_dft(mod, (VEC_ZNX_DFT*)out, cols, a, rows, N, (VMP_PMAT*)pm, rows, cols, tmp);
+  vec_znx_idft(mod, (VEC_ZNX_BIG*)out, rows, (VEC_ZNX_DFT*)ad, rows, tmp);
+  long d;
+  if ((d = snap_cmp_free(&sp)) >= 0) viol("snapshot", "svp_apply_dft modified its prepared scalar at byte %ld (N=%" PRIu64 " %s; content: arbitrary doubles incl. signed zeros)", d, N, native ? "native" : "generic");
+  if ((d = snap_cmp_free(&sm)) >= 0) viol("snapshot", "vmp_apply_dft(_to_dft) modified the prepared matrix at byte %ld (N=%" PRIu64 ")", d, N);
+  if ((d = snap_cmp_free(&sd)) >= 0) viol("snapshot", "vmp_apply_dft_to_dft / vec_znx_idft modified the DFT source at byte %ld (N=%" PRIu64 ")", d, N);
+  if ((d = snap_cmp_free(&sa)) >= 0) viol("snapshot", "an integer source was modified at byte %ld (N=%" PRIu64 ")", d, N);
+  long wh;
+  gbuf_t* gs[] = {&gp, &gm, &gd, &ga, &go, &gt};
+  for (size_t g = 0; g < ARRAY_LEN(gs); g++) {
+    if (gb_check(gs[g], &wh)) viol("canary", "a call wrote outside a buffer (%ld)", wh);
+    gb_free(gs[g]);
+  }
+  cnt("raw_source_calls", 4);
+  cnt("source_bytes_compared", (lens[0] + lens[1] + lens[2]) * 8);
+  sample("prepared scalar, prepared matrix and DFT vector with arbitrary doubles: unchanged by 4 calls");
+  case_end(1);
+}
+
 // chained calls in which a buffer changes role: what was the scratch of the first call holds a SOURCE of the second call
 // (buffer pools do this all the time), while the other operands keep their addresses and contents. The second call must
 // leave that source untouched and return what it returns with fresh buffers.
@@ -201,7 +262,10 @@ void run_C18(void) {
   if (!ro_available())
     for (size_t ni = 0; ni < N_ALL_N; ni++)
       for (int native = 1; native >= 0; native--)
-        for (unsigned rep = 0; rep < (th ? 20u : (ALL_N[ni] <= 4096 ? 3u : 1u)); rep++) role_rotation_case(ALL_N[ni], native, rep);
+        for (unsigned rep = 0; rep < (th ? 20u : (ALL_N[ni] <= 4096 ? 3u : 1u)); rep++) {
+          role_rotation_case(ALL_N[ni], native, rep);
+          raw_sources_case(ALL_N[ni], native, rep);
+        }
   if (!ro_available()) {
     unsigned ctr = 0;
     for (size_t ni = 0; ni < N_ALL_N; ni++)
